@@ -118,6 +118,9 @@ def loop_cases(draw):
     for i in range(draw(st.integers(1, 12))):
         d = draw(st.sampled_from(["c2e", "e2c"]))
         sends.append([d, draw(st.integers(0, nexec - 1))])
+        if draw(st.integers(0, 4)) == 0:
+            # the same content once more, as a message of its own (two sends are two messages, whatever they carry)
+            sends.append([d, sends[-1][1], "same"])
     return {"family": "loop", "nexec": nexec, "sends": sends, "decisions": draw(st.lists(st.integers(0, 1 << 16), max_size=150)),
             "tail": draw(st.integers(0, 1 << 30))}
 
@@ -249,9 +252,12 @@ def run_loop(c, holder) -> tuple[bool, list[str], object]:
             pending_sends = list(c["sends"])
             uid = [0]
 
-            def do_send(d, ei):
+            def do_send(d, ei, same=None):
                 ex = execs[ei % len(execs)]
-                uid[0] += 1
+                if same is None or uid[0] == 0:
+                    uid[0] += 1
+                else:
+                    stats["equal_content_resent"] = stats.get("equal_content_resent", 0) + 1
                 if d == "c2e":
                     stats["c2e"] += 1
                     br.task_sequence(TaskSequence(worker=WorkerId(ex.host, "w0"), tasks=[f"t{uid[0]}"], publish=set()))
@@ -298,8 +304,7 @@ def run_loop(c, holder) -> tuple[bool, list[str], object]:
                 else:
                     opt = options[ch.choose(len(options))]
                 if opt[0] == "send":
-                    d, ei = pending_sends.pop(0)
-                    do_send(d, ei)
+                    do_send(*pending_sends.pop(0))
                 elif opt[0] in ("net", "net-deliver"):
                     i = opt[1]
                     m = net.inflight[i]
@@ -336,8 +341,8 @@ def run_loop(c, holder) -> tuple[bool, list[str], object]:
                         raise Violation(f"executor {name} gave up (ExecutorFailure) under fair loss", "endpoint-raised")
                 check_safety()
             # loss-free drain
-            for d, ei in pending_sends:
-                do_send(d, ei)
+            for snd_ in pending_sends:
+                do_send(*snd_)
             for _round in range(200):
                 while net.inflight:
                     net.deliver(0)
@@ -365,7 +370,7 @@ def run_loop(c, holder) -> tuple[bool, list[str], object]:
                 if sorted(map(repr, want)) != sorted(map(repr, got)):
                     raise Violation(f"{ex.host} sent {len(want)} publications to the controller, the controller's application was handed "
                                     f"{len(got)} (missing {[m for m in want if m not in got][:2]})", "not-exactly-once")
-                if len(want) != sum(1 for d, ei in c["sends"] if d == "e2c" and execs[ei % len(execs)] is ex):
+                if len(want) != sum(1 for d, ei, *_same in c["sends"] if d == "e2c" and execs[ei % len(execs)] is ex):
                     raise Violation(f"{ex.host}: {len(want)} publications entered the acknowledged-send layer, expected "
                                     f"{sum(1 for d, ei in c['sends'] if d == 'e2c' and execs[ei % len(execs)] is ex)}", "not-forwarded")
             if br.sender.inflight or any(_pending(ex.sender) for ex in execs):
